@@ -206,7 +206,7 @@ def gen_mc(scen, outdir=GEN):
     with open(os.path.join(outdir, f"MCT_{name}.tla"), "w") as f:
         f.write(body.replace("@@HEAD@@", f"---- MODULE MCT_{name} ----\nEXTENDS Trace{mod}"))
     cl = ["CONSTANTS", " Threads <- cThreads", " UserFibers <- cUser", " Script <- cScript",
-          " Mutexes <- cMutexes", " MpscQs <- cMpscQs", ' defaultInitValue = "dflt"'] + cl_extra
+          " Mutexes <- cMutexes", " MpscQs <- cMpscQs", ' defaultInitValue = defaultInitValue'] + cl_extra
     for k, v in consts.items():
         cl.append(f" {k} = {tla_val(v)}")
     for k in extra:
